@@ -94,6 +94,7 @@ CFG = {
                   "Modelled, not verified: pointer aliasing of pager lines (value + shared flag), the Fill cell, styles beyond the attribute.",
     "assumptions": [
         "Dynamic list: the Builder has fewer than 2^63 items and is prefix-closed (nil from the first missing index on); an endless Builder is covered only by F119i (Draw does not return when all its widgets have height 0 and the gap is 0)",
+        "integer arithmetic of widgets/list, widgets/pager and widgets/scrollbar does not overflow Go's int (64 bit): index+height, ViewHeight*h, Top*h stay below 2^63 (the models use unbounded integers)",
         "Draw contexts are bounded (Max.Width, Max.Height != 65535), as Dynamic.Draw itself requires",
     ],
     "technique": "Lean 4 proof over an executable model; extractor + differential correspondence harness",
